@@ -158,6 +158,15 @@ func cmdCheck(args []string) {
 			obls = append(obls, vc.obls...)
 		}
 	}
+	invVC := &FnVC{eng: eng, key: "inventory", sorts: newSorts(eng.tags), notes: map[string]bool{}, trustedUsed: map[string]bool{}, fn: nil}
+	for _, o := range eng.runInventories(cfg.Inventory) {
+		o.vc = invVC
+		invVC.obls = append(invVC.obls, o)
+		obls = append(obls, o)
+	}
+	if len(invVC.obls) > 0 {
+		vcs = append(vcs, invVC)
+	}
 	tS := time.Now()
 	dischargeAll(obls, timeout, *par, *tier == "thorough")
 	// second chance for non-discharged obligations at a longer timeout (solver jitter must not raise an alarm)
@@ -230,6 +239,10 @@ func cmdCheck(args []string) {
 	var solverMs int64
 	byKind := map[string]int{}
 	present := map[string]bool{}
+	ledgerClauses := map[string]bool{}
+	for name := range ledger.Obligations {
+		ledgerClauses[clauseOf(name)] = true
+	}
 	for _, vc := range vcs {
 		if len(vc.unsup) > 0 {
 			unsupportedFns = append(unsupportedFns, vc.key+": "+strings.Join(vc.unsup, "; "))
@@ -271,8 +284,12 @@ func cmdCheck(args []string) {
 				genErrors = append(genErrors, o.Name+": "+firstLines(o.Output, 2))
 			case inLedger:
 				violations = append(violations, vio{o, "obligation proved on the unchanged tree no longer discharges (" + o.Result + ")"})
-			case o.Result == "sat" && ledger.Verified[o.Fn]:
-				violations = append(violations, vio{o, "new obligation refuted in a function that was fully verified on the unchanged tree"})
+			case ledgerClauses[clauseOf(o.Name)]:
+				// the same contract clause / safety condition was proved at every check point on the unchanged tree;
+				// the changed code has a check point (a new return, back edge or occurrence) where it fails
+				violations = append(violations, vio{o, "contract clause proved on the unchanged tree fails at a new check point of the changed code (" + o.Result + ")"})
+			case ledger.Verified[o.Fn]:
+				violations = append(violations, vio{o, "function was fully verified on the unchanged tree; the changed body has an obligation that does not discharge (" + o.Result + ")"})
 			default:
 				undecided = append(undecided, o.Name+" ("+o.Result+")")
 			}
@@ -364,8 +381,10 @@ func cmdCheck(args []string) {
 			notes[n] = true
 		}
 		ninstr := 0
-		for _, b := range vc.fn.Blocks {
-			ninstr += len(b.Instrs)
+		if vc.fn != nil {
+			for _, b := range vc.fn.Blocks {
+				ninstr += len(b.Instrs)
+			}
 		}
 		nob, nok := 0, 0
 		for _, o := range vc.obls {
@@ -444,4 +463,30 @@ func countVac(obls []*Obligation) int {
 // replay: placeholder until function-level replay is available for the obligation's function.
 func (eng *Engine) replay(o *Obligation) (status string, text string) {
 	return "not attempted", "no replay harness for this function class; the obligation name and the solver output identify the violated contract clause"
+}
+
+// runInventories: mechanical whole-module inventories a property relies on; each is an obligation decided by evaluation.
+func (eng *Engine) runInventories(names []string) []*Obligation {
+	var out []*Obligation
+	for _, n := range names {
+		switch n {
+		case "ast-immutable":
+			bad := eng.inventoryImmutable(map[string]bool{"syntax": true, "zh": true})
+			o := &Obligation{Name: "inventory/ast-immutable:no store to a syntax-tree field outside the parser#1", Kind: "inventory", Fn: "inventory/ast-immutable", Evaluated: true, Solver: "eval", Result: "unsat"}
+			if len(bad) > 0 {
+				o.Result = "sat"
+				o.Model = "stores to syntax-tree data outside packages syntax/zh:\n" + strings.Join(bad, "\n")
+			}
+			out = append(out, o)
+		}
+	}
+	return out
+}
+
+// clauseOf strips the occurrence counter: "pkg.f/post:tag#3" -> "pkg.f/post:tag".
+func clauseOf(name string) string {
+	if i := strings.LastIndex(name, "#"); i >= 0 {
+		return name[:i]
+	}
+	return name
 }
